@@ -274,6 +274,23 @@ def gen_pair(rng):
         if rng.random() < 0.4:
             t2[rng.choice(["new", 9, "n2"])] = small()
         kind = "typed"
+    elif k < 0.95:
+        # records matched by an id through iterable_compare_func -> iterable_item_moved,
+        # _iterable_compare_func_was_used travels in the payload
+        ids = rng.sample(range(1, 8), rng.randint(2, 5))
+        a = [{"id": i, "v": rng.choice([1, "a", [1, 2], None])} for i in ids]
+        b = [dict(x) for x in a]
+        rng.shuffle(b)
+        for x in b:
+            if rng.random() < 0.4:
+                x["v"] = rng.choice([2, "b", [1, 3]])
+        if rng.random() < 0.5 and b:
+            b.pop()
+        if rng.random() < 0.5:
+            b.insert(rng.randint(0, len(b)), {"id": 9, "v": 0})
+        t1, t2 = a, b
+        kw = {"iterable_compare_func": _by_id}
+        kind = "compare-func"
     else:
         t1 = V.gen_value(rng, depth=2, width=3, kinds="LD")
         vals, _ = V.edit_script(rng, t1, rng.randint(1, 3))
@@ -283,6 +300,14 @@ def gen_pair(rng):
     if rng.random() < 0.15:
         kw["verbose_level"] = 2
     return t1, t2, kw, kind
+
+
+def _by_id(x, y, level=None):
+    from deepdiff.helper import CannotCompare
+    try:
+        return x["id"] == y["id"]
+    except Exception:
+        raise CannotCompare() from None
 
 
 def perturb(rng, t):
@@ -327,7 +352,8 @@ def one_case(ctx, rng, idx, out):
         ctx.count("gen:unbuildable:" + type(e).__name__)
         return
     payload = d.diff
-    case = {"t1": repr(t1), "t2": repr(t2), "diff_kwargs": kw, "bidirectional": bid, "always_include_values": aiv, "gen": kind}
+    case = {"t1": repr(t1), "t2": repr(t2), "diff_kwargs": {k_: ("_by_id" if k_ == "iterable_compare_func" else v_) for k_, v_ in kw.items()},
+            "bidirectional": bid, "always_include_values": aiv, "gen": kind}
     try:
         pcanon = pv_canon(payload)
         pcoq = pv_coq(payload)
@@ -417,8 +443,14 @@ def one_case(ctx, rng, idx, out):
             except Unsupported:
                 continue
             out["vm"].append(("sx_load default_world %s" % P.prog_coq(ops), expected, dict(case, corr="vm", generation=gen_i + 1)))
+            memo_kind, prev = {}, None
             for o in ops:
                 ctx.count("dump-op:" + o[0])
+                if o[0] == "MEMOIZE":
+                    memo_kind[len(memo_kind)] = prev
+                elif o[0] in ("BINGET", "LONG_BINGET") and memo_kind.get(o[1]) in ("EMPTY_LIST", "EMPTY_DICT", "EMPTY_SET"):
+                    ctx.count("dump:BINGET-of-shared-mutable-container")
+                prev = o[0]
         if idx % 2 == 0 and len(out["enc"]) < out["enc_max"]:
             out["enc"].append((pcoq, pcanon, case))
 
@@ -658,8 +690,8 @@ def fixed_witnesses(ctx):
 
 
 def run(ctx):
-    n = 2600 if ctx.thorough else 420
-    out = {"vm": [], "enc": [], "json": [], "enc_max": 600 if ctx.thorough else 120}
+    n = 2600 if ctx.thorough else 640
+    out = {"vm": [], "enc": [], "json": [], "enc_max": 600 if ctx.thorough else 160}
     for i in range(n):
         one_case(ctx, ctx.rng, i, out)
     out["json"] += fixed_witnesses(ctx)
@@ -680,7 +712,7 @@ def replay(ctx, data):
     from deepdiff import DeepDiff, Delta
     from deepdiff.serialization import json_dumps, json_loads
     t1, t2 = eval(case["t1"]), eval(case["t2"])   # literals written by this harness
-    kw = case.get("diff_kwargs", {})
+    kw = {k_: (_by_id if v_ == "_by_id" else v_) for k_, v_ in case.get("diff_kwargs", {}).items()}
     bid, aiv = case.get("bidirectional", False), case.get("always_include_values", False)
     dd = DeepDiff(t1, t2, **kw)
     d = Delta(dd, bidirectional=bid, always_include_values=aiv)
